@@ -164,10 +164,10 @@ func c13Info(g c13Graph) *c13GraphInfo {
 
 // The four shapes in which the graph is handed to the real solver.
 const (
-	c13VarPlain   = 0 // graph.Graph[int] without IsCompact: the shape of *ir.Function (sorted-int index)
-	c13VarCompact = 1 // graph.CompactGraph: identity index
-	c13VarString  = 2 // graph.Graph[string]: hashed index
-	c13VarDouble  = 3 // as plain, every edge yielded twice by Out (parallel edges, as `if c goto 1 else 1`)
+	c13VarPlain    = 0 // graph.Graph[int] without IsCompact: the shape of *ir.Function (sorted-int index)
+	c13VarCompact  = 1 // graph.CompactGraph: identity index
+	c13VarString   = 2 // graph.Graph[string]: hashed index
+	c13VarDouble   = 3 // as plain, every edge yielded twice by Out (parallel edges, as `if c goto 1 else 1`)
 	c13NumVariants = 4
 )
 
@@ -237,9 +237,9 @@ func (p c13Str) Out(n string) iter.Seq[string] {
 // sparse sign analysis.
 type c13Bits struct{}
 
-func (c13Bits) Ident() uint8             { return 0 }
-func (c13Bits) Equals(a, b uint8) bool   { return a == b }
-func (c13Bits) Merge(a, b uint8) uint8   { return a | b }
+func (c13Bits) Ident() uint8           { return 0 }
+func (c13Bits) Equals(a, b uint8) bool { return a == b }
+func (c13Bits) Merge(a, b uint8) uint8 { return a | b }
 
 // c13Flat: flat lattice bottom(0) < constants 1..k < top(255).
 type c13Flat struct{}
